@@ -115,7 +115,10 @@ fn kind_of(k: usize) -> Kind {
     match k {
         0 => Kind::DefaultChunked,
         1 => Kind::Sized(u64::MAX),
-        _ => Kind::ExplicitTe,
+        2 => Kind::ExplicitTe,
+        3 => Kind::ExplicitTeOtherCase(true),
+        4 => Kind::TeAndCl(7),
+        _ => Kind::TeTwoLinesAndCl(1000),
     }
 }
 
@@ -137,7 +140,7 @@ fn exec_small(t: &mut Tape, st: &mut Stats) -> Result<(), String> {
 fn exec_loop(t: &mut Tape, st: &mut Stats) -> Result<(), String> {
     const BUFS: [usize; 12] = [6, 7, 8, 16, 21, 22, 23, 261, 4101, 10_253, 10_254, 20_500];
     let api = if t.below(2) == 0 { Api::Flow } else { Api::Call };
-    let kind = kind_of(t.below(3));
+    let kind = kind_of(t.below(6));
     let n = match t.weighted(&[3, 1]) {
         0 => *t.pick(&BUFS),
         _ => t.range(6, 12_000),
@@ -209,11 +212,14 @@ fn exec_loop(t: &mut Tape, st: &mut Stats) -> Result<(), String> {
 /// write on a fresh sender.
 fn exec_history(t: &mut Tape, st: &mut Stats) -> Result<(), String> {
     let api = if t.below(2) == 0 { Api::Flow } else { Api::Call };
-    let kind = match t.weighted(&[3, 1, 1, 2]) {
+    let kind = match t.weighted(&[3, 1, 1, 2, 1, 1, 1]) {
         0 => Kind::DefaultChunked,
         1 => Kind::ExplicitTe,
         2 => Kind::DefaultChunkedHttp10,
-        _ => Kind::Sized(1_000_000),
+        3 => Kind::Sized(1_000_000),
+        4 => Kind::ExplicitTeOtherCase(false),
+        5 => Kind::TeAndCl(5),
+        _ => Kind::TeTwoLinesAndCl(1000),
     };
     let mut s = Sender::new(api, kind)?;
     let nsteps = t.range(2, 10);
@@ -287,6 +293,17 @@ fn exec_history(t: &mut Tape, st: &mut Stats) -> Result<(), String> {
         } else {
             None
         };
+        // sometimes the caller first tries to end the body with a buffer that cannot hold the terminator (0..4 bytes): nothing is
+        // emitted, the body is not finished, and the writes that follow must make progress as before
+        if t.chance(12) {
+            let small = t.below(5);
+            let (c, p) = with_out(small, |o| s.write(&[], o)).map_err(|e| format!("step {}: finishing write into {} bytes failed: {:?}", i, small, e))?;
+            if (c, p) != (0, 0) || s.finished() {
+                return Err(format!("step {}: finishing write into {} bytes reported ({}, {}), finished = {}", i, small, c, p, s.finished()));
+            }
+            desc.push(json!({"failed_finish_attempt_with_buffer": small}));
+            st.class("failed_finish_attempt_in_history");
+        }
         let input = &pattern()[200 + off..200 + off + input_len];
         // the advertised maximum for this buffer, asked on a fresh body (asking this body is itself part of some histories)
         let m = Sender::new(Api::Flow, kind)?.max_input(out).unwrap_or(0);
@@ -329,8 +346,8 @@ consumed(min(L, m)) with m = calculate_max_input(n), consumed non-decreasing alo
 decodes to the consumed prefix. enumeration 'small' (thorough): all L <= 300 for all n <= 300. random 'loops': \
 whole-body send loops with a fixed buffer must terminate within |body| writes and decode to the body. \
 random 'histories': 2..10 writes on one body with buffers that grow and shrink (6..12, hex-digit boundaries, up to 12000), inputs \
-around the buffer size and around 16 / 256 / 4096 / 8192 / 10240, calculate_max_input() asked about the same or another size in \
-between: each write consumes >= 1, and at least the advertised maximum for its buffer when that much was offered; length-delimited histories interleave refused \
+around the buffer size and around 16 / 256 / 4096 / 8192 / 10240, calculate_max_input() asked about the same or another size and failed finishing attempts (buffer 0..4) in \
+between, seven body kinds incl. Transfer-Encoding in another case / on two lines / next to a Content-Length: each write consumes >= 1, and at least the advertised maximum for its buffer when that much was offered; length-delimited histories interleave refused \
 operations (overshooting write, overshooting direct-write report), after which legal writes must still consume min(in, out). non-trivial = chunked pair with L > n-5 and n >= 21, or n-5-L in {0,1}; distinct by (n, L, api); loops with >= 2 writes.",
     assumptions: &[
         "a fresh sender per (L, n) pair, so pairs are independent",
